@@ -36,7 +36,7 @@ def tails(t, nlive, kinds=('rm', 'rep', 'fwd', 'str', 'set')):
                 yield ['rep', k, s]
     if 'fwd' in kinds:
         for s in alpha:
-            for f in (0, 1, 5, -1):
+            for f in (0, 1, -1) + ((5,) if len(alpha) <= 8 else ()):
                 yield ['add', s, f]
     if 'str' in kinds:
         yield ['str', False]
